@@ -14,7 +14,7 @@ THEOREM_FILES = [("NdInterp/Props/C12.lean", "C12_"), ("NdInterp/Props/IntTie.le
 RULE = ("every word over {<,=,>} of consecutive-pair relations up to length L (quick 8, thorough 11), realised as "
         "rational, f64 and i64 (small and > 2^53) vectors in contiguous / strided / reversed views; every NaN placement in f64 vectors up to "
         "length 6 (quick) / 8 (thorough); random long vectors. non-trivial = vector of length >= 2; distinct = distinct case line")
-PARTIAL = ["i32 is covered by the generic theorem (any linear order) but not run through the protocol (i64 is)"]
+PARTIAL = []
 ASSUMPTIONS = ["IEEE comparison on non-NaN f64 is a linear order (C12_classify applies to NaN-free float data through that)",
                "NaN compares false with everything (C12_nan's BadPair hypothesis for pairs containing NaN)"]
 
